@@ -345,6 +345,156 @@ def check_races(prop, tier, seed, work, t0):
         required=C12_REQUIRED, extra_cov=extra, replay_info={"harness": "races.cpp", "how": "./check C12 --replay <file>"})
 
 
+# ------------------------------------------------------------------------------------------ C18
+import re as _re
+
+MEMKEY = _re.compile(r"(asan-|ubsan-|lsan-|signal-11|signal-7|signal-4|:hang|stray-|input-write|writes-beyond|input-modified|source-modified|noop-has-effect|process:(asan|ubsan|lsan|rc-11|rc-7))")
+C18_RULE = ("(1) ASan+UBSan (everything but vla-bound; alloc_dealloc_mismatch, detect_stack_use_after_return) builds, AVX2 and AVX-512, of the monitors of C03-C09, C13, C14, C16, C17, C19 with "
+            "exact-size heap buffers and the smallest shapes (one row, one element, zero columns, ncols not divisible by nblock, caller scratch of exactly size*ceil(ncols/nblock)); "
+            "each sanitizer report is attributed to one case by the forked-group runner and keyed by kind + top repository frames. (2) object lifetimes: construct / call sequence / destroy, "
+            "maxDomain 0 and 1, several objects alive, with LeakSanitizer at exit. (3) valgrind memcheck (origins tracked) on a scalar+AVX2 slice of the same workloads for uninitialised-value "
+            "use. (4) fill differential: production-flag builds with -ftrivial-auto-var-init=pattern vs =zero and different MALLOC_PERTURB_ bytes must give identical output digests "
+            "(covers AVX-512, which valgrind cannot execute). evaluations = cases executed under a monitor; distinct = distinct case hashes (capped); every case is non-trivial.")
+C18_REQUIRED = ["cfg:NTT", "cfg:INTT", "cfg:extendPol", "history:sequences", "family:inverse_constructed_round0", "len:zero", "shape:one_row", "shape:zero_columns",
+                "batchInverse:beyond_8MiB_of_temporaries", "matfam:band_directed:full", "lifetime:maxDomain0", "lifetime:maxDomain1", "lifetime:destroyed_unused",
+                "lifetime:extendPol_calls", "lifetime:heap_objects_interleaved", "lifetime:process_reached_exit(leak check follows)", "memcheck:processes_clean_exit",
+                "fill:buckets_compared", "trials:avx512", "cfg:blocked_uneven", "cfg:caller_buffer", "cfg:size_one"]
+
+
+@reg("C18")
+def check_memsan(prop, tier, seed, work, t0):
+    import props_c16
+    import props_c17
+    if not vfw.have_avx512():
+        raise vfw.Inconclusive("this CPU has no AVX-512F; the AVX-512 slices of C18 cannot be executed")
+    th = tier == "thorough"
+    to = 10800 if th else 1800
+    cub = ["goldilocks_base_field.cpp", "goldilocks_cubic_extension.cpp"]
+    allib = ["goldilocks_base_field.cpp", "goldilocks_cubic_extension.cpp", "ntt_goldilocks.cpp", "poseidon_goldilocks.cpp"]
+    jobs = [
+        {"name": "ntt-asan", "flavour": "asan", "srcs": [H("ntt.cpp")], "libsrcs": NTT_LIBS},
+        {"name": "ntt-asanshim", "flavour": "asanshim", "srcs": [H("ntt.cpp")], "libsrcs": NTT_LIBS},
+        {"name": "pos-asan", "flavour": "asan", "srcs": [H("poseidon.cpp")], "libsrcs": POS_LIBS},
+        {"name": "pos-asan512", "flavour": "asan512", "srcs": [H("poseidon.cpp")], "libsrcs": POS_LIBS},
+        {"name": "cubic-asan", "flavour": "asan", "srcs": [H("cubic.cpp")], "libsrcs": cub},
+        {"name": "vec-asan", "flavour": "asan", "srcs": [H("vecops.cpp")], "libsrcs": ["goldilocks_base_field.cpp"]},
+        {"name": "vec-asan512", "flavour": "asan512", "srcs": [H("vecops.cpp")], "libsrcs": ["goldilocks_base_field.cpp"]},
+        {"name": "life-asan", "flavour": "asan", "srcs": [H("lifetimes.cpp")], "libsrcs": allib},
+        {"name": "ntt-vg", "flavour": "vgshim", "srcs": [H("ntt.cpp")], "libsrcs": NTT_LIBS, "defs": ["-DVERIF_PLAIN_MALLOC"]},
+        {"name": "pos-vg", "flavour": "vgshim", "srcs": [H("poseidon.cpp")], "libsrcs": POS_LIBS, "defs": ["-D__SANITIZE_ADDRESS__=1"]},
+        {"name": "cubic-vg", "flavour": "vg", "srcs": [H("cubic.cpp")], "libsrcs": cub},
+    ]
+    for ab in ("A", "B"):
+        jobs += [{"name": "ntt-fill" + ab, "flavour": "fill" + ab + "shim", "srcs": [H("ntt.cpp")], "libsrcs": NTT_LIBS, "defs": ["-DVERIF_PLAIN_MALLOC"]},
+                 {"name": "pos-fill" + ab + "512", "flavour": "fill" + ab + "512", "srcs": [H("poseidon.cpp")], "libsrcs": POS_LIBS, "defs": ["-D__SANITIZE_ADDRESS__=1"]},
+                 {"name": "cubic-fill" + ab, "flavour": "fill" + ab, "srcs": [H("cubic.cpp")], "libsrcs": cub}]
+    wtrials = 20000 if th else 1000
+    j16, r16 = props_c16.asan_results(tier, seed, work, wtrials)
+    j17, r17 = props_c17.asan_results(tier, seed, work, wtrials)
+    bins = vfw.build_many(work, jobs + j16 + j17)
+    S = lambda q, t: scaled(tier, q, t)
+    runs = [
+        ("ntt-asanshim", "C03", seed, ["--smax", S(5, 7), "--dmax", S(11, 14), "--large", S(40, 300), "--thin", S(2, 1), "--d22", "0"], "ntt-asan-C03", NCPU, None),
+        ("ntt-asanshim", "C04", seed, ["--smax", S(5, 7), "--dmax", S(11, 14), "--large", S(40, 300), "--thin", S(2, 1), "--d22", "0", "--roundtrips", S(3000, 40000)], "ntt-asan-C04", NCPU, None),
+        ("ntt-asanshim", "C05", seed, ["--emax", S(5, 8), "--elarge", S(10, 14), "--large", S(40, 300), "--thin", S(3, 1)], "ntt-asan-C05", NCPU, None),
+        ("ntt-asan", "C03", seed + 3, ["--smax", S(4, 6), "--dmax", "10", "--large", S(10, 60), "--thin", S(8, 2), "--d22", "0", "--linearity", "0"], "ntt-asan-libgomp-C03", NCPU, None),
+        ("ntt-asan", "C05", seed + 3, ["--emax", S(4, 6), "--elarge", "10", "--large", S(10, 60), "--thin", S(12, 2), "--linearity", "0"], "ntt-asan-libgomp-C05", NCPU, None),
+        ("ntt-asan", "C19", seed, ["--sequences", S(1200, 12000)], "ntt-asan-C19", NCPU, None),
+        ("pos-asan", "C06", seed, ["--states", S(60000, 2000000)], "pos-asan-C06", NCPU, None),
+        ("pos-asan512", "C06", seed + 1, ["--states", S(60000, 2000000)], "pos-asan512-C06", NCPU, None),
+        ("pos-asan", "C07", seed, ["--contents", S(8, 120)], "pos-asan-C07", NCPU, None),
+        ("pos-asan512", "C07", seed + 1, ["--contents", S(8, 120)], "pos-asan512-C07", NCPU, None),
+        ("pos-asan", "C08", seed, ["--thin", S(8, 1)], "pos-asan-C08", NCPU, None),
+        ("pos-asan512", "C08", seed + 1, ["--thin", S(6, 1)], "pos-asan512-C08", NCPU, None),
+        ("cubic-asan", "C09", seed, ["--random", S(2000000, 60000000), "--boundary_step", S(8, 2)], "cubic-asan", NCPU, None),
+        ("vec-asan", "C13", seed, ["--trials", S(200000, 8000000)], "vec-asan-C13", NCPU, None),
+        ("vec-asan512", "C14", seed, ["--trials", S(200000, 8000000)], "vec-asan512-C14", NCPU, None),
+    ] + r16 + r17
+    res = vfw.Results()
+    raw = vfw.Results()
+    for binname, hprop, sd, args, tag, nsh, env in runs:
+        raw.merge(vfw.run_shards(work, bins[binname], hprop, tier, sd, nsh, args, tag=tag, env=env, timeout=to))
+    # (2) lifetimes with LeakSanitizer at exit (no fork: the leak report belongs to the whole process)
+    leak_env = {"ASAN_OPTIONS": "abort_on_error=0:halt_on_error=1:detect_leaks=1:alloc_dealloc_mismatch=1:detect_stack_use_after_return=1:exitcode=23"}
+    raw.merge(vfw.run_shards(work, bins["life-asan"], "C18", tier, seed, NCPU, ["--objects", S(2400, 40000), "--nofork"], tag="lifetimes", env=leak_env, timeout=to))
+    # keep memory-safety classes only; functional mismatches seen in these builds belong to the functional checks
+    res.evaluations, res.nontrivial_total, res.counters, res.samples, res.hashes = raw.evaluations, raw.nontrivial_total, raw.counters, raw.samples, raw.hashes
+    res.inconclusive, res.runs = raw.inconclusive, raw.runs
+    dropped = 0
+    for key, detail in raw.violations.items():
+        if MEMKEY.search(key):
+            res.violations["C18:" + key] = detail
+            res.violation_counts["C18:" + key] = raw.violation_counts.get(key, 1)
+        else:
+            dropped += 1
+    res.counters["sanitizer_builds:functional_mismatches_left_to_functional_checks"] = dropped
+    # (3) valgrind memcheck on the scalar + AVX2 slice
+    vg = ["valgrind", "--tool=memcheck", "--error-exitcode=97", "--track-origins=yes", "--leak-check=no", "-q", "--max-threads=2000"]
+    vgruns = [
+        ("ntt-vg", "C03", ["--smax", S(3, 4), "--dmax", "9", "--large", S(2, 10), "--thin", S(6, 2), "--d22", "0", "--linearity", "0", "--nofork"], "vg-ntt-C03"),
+        ("ntt-vg", "C04", ["--smax", S(3, 4), "--dmax", "9", "--large", S(2, 10), "--thin", S(6, 2), "--d22", "0", "--linearity", "0", "--roundtrips", S(200, 2000), "--rt_dmax", "6", "--nofork"], "vg-ntt-C04"),
+        ("ntt-vg", "C05", ["--emax", S(3, 5), "--elarge", "8", "--large", S(2, 10), "--thin", S(8, 2), "--linearity", "0", "--nofork"], "vg-ntt-C05"),
+        ("ntt-vg", "C19", ["--sequences", S(64, 800), "--hist_smax", "5", "--nofork"], "vg-ntt-C19"),
+        ("pos-vg", "C06", ["--states", S(320, 4000), "--nofork"], "vg-pos-C06"),
+        ("pos-vg", "C07", ["--contents", S(1, 4), "--nofork"], "vg-pos-C07"),
+        ("pos-vg", "C08", ["--thin", S(60, 8), "--nofork"], "vg-pos-C08"),
+        ("cubic-vg", "C09", ["--random", S(16000, 400000), "--boundary_step", S(2000, 200), "--isone", "1000", "--nofork"], "vg-cubic"),
+    ]
+    clean = 0
+    for binname, hprop, args, tag in vgruns:
+        r = vfw.run_shards(work, bins[binname], hprop, tier, seed, NCPU, args, tag=tag, wrapper=vg, expect_exit=(0, 97), timeout=to,
+                           env={"OMP_NUM_THREADS": "2"})
+        clean += sum(1 for c in r.counters if c.startswith("family:") or c.startswith("cfg:")) > 0
+        for i in range(NCPU):
+            txt = open(work.path("stderr-%s-%d.txt" % (tag, i)), errors="replace").read()
+            for key, excerpt in vfw.parse_valgrind(txt).items():
+                res.violations.setdefault("C18:" + key, {"memcheck": excerpt, "_run": tag})
+        res.evaluations += r.evaluations
+        for k, v in r.counters.items():
+            res.counters[k] = res.counters.get(k, 0) + v
+        res.inconclusive += r.inconclusive
+        res.runs += r.runs
+        for key, detail in r.violations.items():
+            if MEMKEY.search(key) or "process:" in key:
+                res.violations["C18:" + key] = detail
+    res.counters["memcheck:processes_clean_exit"] = clean
+    # (4) fill differential
+    fills = [("ntt-fill", "C03", ["--smax", S(4, 6), "--dmax", "10", "--large", S(10, 60), "--thin", S(3, 1), "--d22", "0", "--linearity", "0", "--digest", "1"], ""),
+             ("ntt-fill", "C04", ["--smax", S(4, 6), "--dmax", "10", "--large", S(10, 60), "--thin", S(3, 1), "--d22", "0", "--linearity", "0", "--roundtrips", "0", "--digest", "1"], ""),
+             ("ntt-fill", "C05", ["--emax", S(4, 7), "--elarge", "10", "--large", S(10, 60), "--thin", S(4, 1), "--linearity", "0", "--digest", "1"], ""),
+             ("pos-fill", "C06", ["--states", S(20000, 400000), "--digest", "1"], "512"),
+             ("pos-fill", "C07", ["--contents", S(4, 40), "--digest", "1"], "512"),
+             ("pos-fill", "C08", ["--thin", S(6, 2), "--digest", "1"], "512"),
+             ("cubic-fill", "C09", ["--random", "1000", "--boundary_step", "5000", "--isone", "100", "--digest", "1"], "")]
+    buckets = 0
+    for stem, hprop, args, sfx in fills:
+        dg = {}
+        for ab, perturb in (("A", "165"), ("B", "90")):
+            r = vfw.run_shards(work, bins[stem + ab + sfx], hprop, tier, seed, NCPU, args, tag="%s%s-%s" % (stem, ab, hprop), timeout=to,
+                               env={"MALLOC_PERTURB_": perturb})
+            dg[ab] = r.digests
+            res.evaluations += r.evaluations
+            res.inconclusive += r.inconclusive
+            res.runs += r.runs
+            for key, detail in r.violations.items():
+                if MEMKEY.search(key):
+                    res.violations["C18:" + key] = detail
+        if not dg["A"] or set(dg["A"]) != set(dg["B"]):
+            res.inconclusive.append("fill differential %s %s: digest buckets missing or different sets" % (stem, hprop))
+        for b in sorted(set(dg["A"]) & set(dg["B"])):
+            buckets += 1
+            if dg["A"][b] != dg["B"][b]:
+                res.violations["C18:fill-differential:%s:%s:%s" % (stem, hprop, b)] = {
+                    "what": "outputs depend on the fill pattern of uninitialised stack/heap memory", "bucket": b,
+                    "digest_pattern_fill": dg["A"][b], "digest_zero_fill": dg["B"][b]}
+    res.counters["fill:buckets_compared"] = buckets
+    return vfw.finalize(prop, tier, seed, res, t0, C18_RULE, assumptions=ASSUME_COMMON + [
+        "red-zone tools miss non-adjacent and intra-object overflows and reuse of freed memory beyond the quarantine (the sentinel arenas of C16/C17 and the guard pages of the production builds cover part of that gap)",
+        "valgrind 3.19 cannot execute AVX-512: uninitialised reads in AVX-512 code are only seen when they influence an output (fill differential)",
+        "vla-bound is excluded from UBSan on purpose (zero-length VLA for zero columns is defined GNU behaviour)"],
+        required=C18_REQUIRED, replay_info={"harness": "ntt.cpp poseidon.cpp cubic.cpp vecops.cpp wrappers16/17 lifetimes.cpp", "how": "./check C18 --replay <file>"})
+
+
 def replay(prop, path, work, seed):
     """Re-run the recorded violation: rebuild and run the same harness on the recorded case only."""
     rp = json.load(open(path))
